@@ -353,6 +353,40 @@ func (x *Exec) verifyFunc(fn *ssa.Function, c *FuncContract) {
 		}
 		fr.env[fv.Name()] = envEntry{v: v, isAddr: true}
 	}
+	// calls(f) counts the calls made through parameter f: distinct function-typed parameters are
+	// treated as distinct functions (origin-based accounting)
+	{
+		var ids []Term
+		for _, p := range fn.Params {
+			if fv, ok := params[p.Name()].(FuncV); ok {
+				ids = append(ids, fv.ID)
+			}
+		}
+		for i := 0; i < len(ids); i++ {
+			for j := i + 1; j < len(ids); j++ {
+				st.assume(not(eq(ids[i], ids[j])))
+			}
+		}
+		if len(ids) > 1 {
+			x.sym.note("distinct function-typed parameters are treated as distinct functions when counting calls")
+		}
+	}
+	// captured variables are distinct variables, hence distinct cells
+	{
+		var names []string
+		for n := range addrParams {
+			names = append(names, n)
+		}
+		sort.Strings(names)
+		for i := 0; i < len(names); i++ {
+			for j := i + 1; j < len(names); j++ {
+				a, b := addrParams[names[i]], addrParams[names[j]]
+				if typeKey(a.Root) == typeKey(b.Root) {
+					st.assume(not(eq(a.Base, b.Base)))
+				}
+			}
+		}
+	}
 	st.frames = []*Frame{fr}
 	fr.block = fn.Blocks[0]
 	// lets and requires in the pre-state
@@ -392,6 +426,19 @@ func (x *Exec) addCover(name string, st *State) {
 	o := x.obls[name]
 	if o == nil {
 		o = &Obligation{Name: name, Kind: "cover", Counts: true}
+		x.obls[name] = o
+		x.oblOrder = append(x.oblOrder, name)
+	}
+	o.Instances = append(o.Instances, OblInstance{PC: append([]Term(nil), st.pc...), Goal: tFalse, Trail: append([]string(nil), st.trail...)})
+}
+
+// addCoverAny: at least one of the registered path conditions must be satisfiable (some normal exit of the
+// function is reachable under its precondition and the assumed callee contracts: guards against assumptions
+// that silently kill every path).
+func (x *Exec) addCoverAny(name string, st *State) {
+	o := x.obls[name]
+	if o == nil {
+		o = &Obligation{Name: name, Kind: "cover-any", Counts: true, Text: "some normal exit is reachable (non-vacuity)"}
 		x.obls[name] = o
 		x.oblOrder = append(x.oblOrder, name)
 	}
@@ -1108,6 +1155,7 @@ func (x *Exec) checkExit(st *State, fr *Frame, res []Value, panicking bool) {
 		}
 		return
 	}
+	x.addCoverAny(x.oblName("exit-reachable", 0, ""), st)
 	// results
 	rs := fr.fn.Signature.Results()
 	for i := 0; i < rs.Len() && i < len(res); i++ {
@@ -1302,7 +1350,7 @@ func (x *Exec) callContract(st *State, fr *Frame, resInstr ssa.Instruction, fn *
 	for i, p := range fn.Params {
 		vars[p.Name()] = args[i]
 	}
-	sc := &specCtx{x: x, st: st, vars: vars, pkg: fnPkg(fn), fn: fn, heap: st.heap, letExprs: letMap(c)}
+	sc := &specCtx{x: x, st: st, vars: vars, pkg: fnPkg(fn), fn: fn, heap: st.heap, letExprs: letMap(c), noGhost: true}
 	sc.lets = map[string]Value{}
 	addrVars := map[string]PtrV{}
 	for i, fv := range fn.FreeVars {
@@ -1332,7 +1380,7 @@ func (x *Exec) callContract(st *State, fr *Frame, resInstr ssa.Instruction, fn *
 		pev.Panicked = true
 		other.events = append(other.events, &pev)
 		other.trail = append(other.trail, "panic in "+rn)
-		osc := &specCtx{x: x, st: other, vars: vars, pkg: fnPkg(fn), fn: fn, heap: other.heap, lets: sc.lets, old: pre, panicking: true, letExprs: letMap(c), addrVars: addrVars}
+		osc := &specCtx{x: x, st: other, vars: vars, pkg: fnPkg(fn), fn: fn, heap: other.heap, lets: sc.lets, old: pre, panicking: true, letExprs: letMap(c), addrVars: addrVars, noGhost: true}
 		x.havocItems(other, osc, c.Modifies)
 		osc.heap = other.heap
 		for _, e := range c.PanicEnsures {
@@ -1346,7 +1394,7 @@ func (x *Exec) callContract(st *State, fr *Frame, resInstr ssa.Instruction, fn *
 	x.havocItems(st, sc, c.Modifies)
 	var res []Value
 	rs := fn.Signature.Results()
-	post := &specCtx{x: x, st: st, vars: map[string]Value{}, pkg: fnPkg(fn), fn: fn, heap: st.heap, lets: sc.lets, old: pre, atExit: true, letExprs: letMap(c), addrVars: addrVars}
+	post := &specCtx{x: x, st: st, vars: map[string]Value{}, pkg: fnPkg(fn), fn: fn, heap: st.heap, lets: sc.lets, old: pre, atExit: true, letExprs: letMap(c), addrVars: addrVars, noGhost: true}
 	for k, v := range vars {
 		post.vars[k] = v
 	}
@@ -2002,19 +2050,10 @@ func (x *Exec) foldCall(st *State, fr *Frame, resInstr ssa.Instruction, fn *ssa.
 		nf.regs[fv] = cb.Bind[i]
 		nf.env[fv.Name()] = envEntry{v: cb.Bind[i], isAddr: true}
 	}
-	if c := x.contractOf(cb.Fn); c != nil && !c.InlineAlways {
-		// the callback has its own contract: use it for the step
-		forks := x.callContract(side, sfr, nil, cb.Fn, c, cargs, true, cb.Bind)
-		x.foldCheckNow(side, sfr, marker)
-		side.dead = true
-		for _, f := range forks {
-			f.dead = true
-		}
-	} else {
-		nf.block = cb.Fn.Blocks[0]
-		nf.isDefer = true // result discarded
-		side.frames = append(side.frames, nf)
-	}
+	_ = sfr
+	nf.block = cb.Fn.Blocks[0]
+	nf.isDefer = true // result discarded
+	side.frames = append(side.frames, nf)
 	// main path
 	ev := &Event{Kind: "call", Name: rn, Callee: x.funcValue(fn, nil), Args: args, Index: len(st.events)}
 	havocCaptured(st)
